@@ -15,6 +15,6 @@ package generated
 //@   ensures panicked ==> calls(Recover) == 1
 //@   ghost lookups = 0
 //@   at! `entityResolverNameForItem(ctx, rep.entity)` ghost lookups = lookups + 1
-//@   loop 1: invariant lookups == idx1 && len(same) + len(other) == idx1
+//@   loop 1: invariant lookups == idx1 && len(same) <= idx1
 //@   at! `ec.resolvers.Entity().FindManyItemByIDs(ctx, typedReps)` requires lookups >= len(reps)
 //@   at! `ec.resolvers.Entity().FindManyItemBySkus(ctx, typedReps)` requires lookups >= len(reps)
